@@ -13,6 +13,7 @@ import OFV.Proofs.C13Grid
 import OFV.Proofs.C13Diag
 import OFV.Proofs.C13Sound
 import OFV.Proofs.C13Herm
+import OFV.Proofs.C13Sound2
 import Mathlib.Tactic.NormNum
 
 namespace OFV.C13
@@ -197,6 +198,27 @@ theorem spinless_hubbard_sound (tol : Rat) (φ : Term → GQ) (a : HubbardArgs) 
         (-a.t) * φ [(e.1, 1), (e.2, 0)] + (-a.t) * φ [(e.2, 1), (e.1, 0)] + a.u * φ [(e.1, 1), (e.1, 0), (e.2, 1), (e.2, 0)]) +
       gsumL ((List.range (a.x * a.y)).map fun s => (-a.mu) * φ [(s, 1), (s, 0)]) :=
   spinless_hubbard_sound' tol φ a hphs hex ht hreg hφ
+
+/-- **hubbard_sound (spinful `fermi_hubbard`)**: every lattice size, both boundary conditions, any particle-hole flag and
+magnetic field, real hopping amplitude; for EVERY term functional `φ` (no symmetry assumption) the Model's output
+denotes `-t Σ_{⟨i,j⟩ ∈ Spec edges} Σ_σ (a†_{iσ} a_{jσ} + a†_{jσ} a_{iσ})` plus the on-site terms of every site
+(`spin_site_terms` makes them explicit) -/
+theorem spinful_hubbard_sound (tol : Rat) (φ : Term → GQ) (a : HubbardArgs)
+    (hex : ExactSum tol [] ((List.range (a.x * a.y)).flatMap (spinfulPieces tol a)))
+    (ht : a.t.conj = a.t) (hreg : GQ.isSmall tol (-a.t) = true → -a.t = 0) :
+    den φ (spinfulFermiHubbard tol a) =
+      gsumL ((edges adjNN a.x a.y a.periodic).map fun e =>
+        ((-a.t) * φ [(2 * e.1, 1), (2 * e.2, 0)] + (-a.t) * φ [(2 * e.2, 1), (2 * e.1, 0)]) +
+        ((-a.t) * φ [(2 * e.1 + 1, 1), (2 * e.2 + 1, 0)] + (-a.t) * φ [(2 * e.2 + 1, 1), (2 * e.1 + 1, 0)])) +
+      gsumL ((List.range (a.x * a.y)).map (spinSiteDen tol φ a)) :=
+  spinful_hubbard_sound' tol φ a hex ht hreg
+
+/-- on-site terms of the spinful model: `U n_{i↑} n_{i↓} + (-μ-h) n_{i↑} + (-μ+h) n_{i↓}` -/
+theorem spin_site_terms (tol : Rat) (φ : Term → GQ) (a : HubbardArgs) (hphs : a.phs = false) (s : Nat) :
+    spinSiteDen tol φ a s =
+      a.u * φ [(2 * s, 1), (2 * s, 0), (2 * s + 1, 1), (2 * s + 1, 0)] +
+      ((-a.mu - a.h) * φ [(2 * s, 1), (2 * s, 0)] + (-a.mu + a.h) * φ [(2 * s + 1, 1), (2 * s + 1, 0)]) :=
+  spinSiteDen_explicit tol φ a hphs s
 
 /-- **hermitian_generators** (spinless `fermi_hubbard`; real `t`, `U`, `μ`; every lattice size, both boundary
 conditions): with `φ†(τ) = conj φ(τ†)` (for `φ τ = ⟨t|τ|s⟩` this is `⟨s|τ|t⟩*`), the Model's output satisfies
